@@ -300,6 +300,14 @@ def parts(tier):
                 for ref in refs:
                     for ni in (1, 2, 3, 4, 5):
                         yield (s1, pts, ref, 0.25, ni)
+        # jitter of one unit in the last place (0.1 + 0.2 against 0.3): a timestamp within maxDifference of a reference time BECOMES that time - a
+        # tier that differs from its aligned form only by such amounts is not "already aligned"
+        U3, U8 = 0.1 + 0.2, 0.7999999999999999
+        for s1, pts, ref in ((((U3, 1.0),), (U3,), (0.3, 1.0)), (((0.25, U8),), (U8, 1.5), (0.8, 1.5)), (((U3, U8), (U8, 1.5)), (U3, U8), (0.3, 0.8, 1.5)),
+                             (((U3, 1.0),), (0.5,), (0.3, 1.0)), (((0.5, 1.0),), (U3,), (0.3, 1.0)), (((0.3, 1.0),), (0.3,), (U3, 1.0))):
+            for md in (0.25, 1e-9, 1e-12):
+                for ni in (0, 3):
+                    yield (s1, pts, ref, md, ni)
 
     sets3 = D.interval_sets(D.unit_grid(5), 3)
 
@@ -350,7 +358,8 @@ def parts(tier):
                        "non-trivial = distinct (types, maxDifference, number moved, exactly-at-threshold, tie)", bounds={"grid_step": 0.25}),
         InputPart("alignBoundariesAcrossTiers", gen_align, _check_align,
                   rule="3-tier textgrids (interval, reference point tier, point) x references x maxDifference: every non-reference tier is "
-                       "dejittered, the reference tier is untouched, tier order kept (a praatio error from the spacing guard is accepted)",
+                       "dejittered, the reference tier is untouched, tier order kept (a praatio error from the spacing guard is accepted); also tiers "
+                       "whose timestamps differ from the reference times by one unit in the last place (0.1 + 0.2 against 0.3)",
                   bounds={}),
         InputPart("morph", gen_morph, _check_morph,
                   rule="all ordered pairs of interval sets (<=3) on a 5-grid x filters {None, labels a/c, none} (source span 0..5, and spans starting "
